@@ -132,6 +132,10 @@ def limbs(n: int) -> list[int]:
     """Little-endian base-10^4 limbs of a natural number; zero is the empty sequence."""
     if n < 0:
         raise ValueError("limbs() takes naturals")
+    if n.bit_length() > 20000:
+        # an absurdly large value (only ever produced by broken code, e.g. 2**<mis-decoded exponent>): do not spend
+        # quadratic time converting it - no specification value is this large, so a marker that equals nothing suffices
+        return [-1, n.bit_length() % 10000]
     out = []
     while n:
         out.append(n % LIMB)
